@@ -65,11 +65,9 @@ def extract_vfit():
                 guards.append(literal_fraction(st.test.comparators[0], "vfit guard"))
     if len(guards) != 1:
         raise Unsupported(f"vfit.py: expected one `abs(a) < literal` guard, found {len(guards)}")
-    body = src(fn)
-    for needle in ("sub_disp = (cost[0] - cost[2]) / (2 * a)", "sub_cost = a * (sub_disp - 1) + cost[2]",
-                   "a = cost[2] - cost[1]", "a = cost[0] - cost[1]", "if inverse * cost[0] > inverse * cost[2]"):
-        if needle not in body:
-            raise Unsupported(f"vfit.py: statement `{needle}` not found")
+    # the arithmetic statements of the method are no longer pinned textually here: T12 (gen_kernels.py) translates the
+    # whole function and Properties/C06Kernels.lean proves it equal to the model, so a harmless rewrite passes and a
+    # change of meaning breaks that proof
     return guards[0]
 
 
@@ -91,11 +89,7 @@ def extract_quadratic():
             flat_guard = True
     if clamp is None:
         raise Unsupported("quadratic.py: sub_disp assignment not found")
-    body = src(fn)
-    for needle in ("alpha = (cost[0] - 2 * cost[1] + cost[2]) / 2", "beta = (cost[2] - cost[0]) / 2",
-                   "sub_cost = alpha * sub_disp ** 2 + beta * sub_disp + gamma"):
-        if needle not in body:
-            raise Unsupported(f"quadratic.py: statement `{needle}` not found")
+    # (arithmetic statements: see extract_vfit — covered by T12 and the equality theorem)
     return clamp, flat_guard
 
 
